@@ -235,7 +235,15 @@ Inductive op :=
 | Inbound (p : N) (d : dgram)                        (* DeviceRemote.HandleSpineMesssage on connection p *)
 | AddRespCb (e : eaddr) (f ctr cb : N)               (* FeatureLocal.AddResponseCallback *)
 | AddResultCb (e : eaddr) (f cb : N)                 (* FeatureLocal.AddResultCallback *)
-| QFactory (t : N).                                  (* which of the harness' functions CreateFunctionData(t) registers *)
+| QFactory (t : N)                                   (* which of the harness' functions CreateFunctionData(t) registers *)
+| ParArrive (ps : list N) (d : dgram) (late : option N) (pf : N).
+     (* overlapping arrivals: the same datagram d (a reply or result referencing a counter) arrives on the
+        connections ps at once, from as many goroutines, optionally racing with one AddResponseCallback of
+        callback `late` for d's reference on d's destination feature; after all of them returned, d arrives
+        once more on connection pf.  Lookup + spawn + delete of the callbacks of a counter is one critical
+        section (FeatureLocal.muxResponseCB), so every interleaving is a sequential order; the model runs
+        the order "ps, registration, pf".  Observed: the multiset of invocations of the whole operation
+        (peer field blanked: which arrival won is the schedule's business) and the registration outcome. *)
 
 (* ------------------------------------------------------------------ lookups *)
 Definition is_feat (e : eaddr) (f : N) (x : lfeat) : bool := eqb_eaddr (lf_ent x) e && N.eqb (lf_id x) f.
@@ -729,6 +737,59 @@ Definition fresh_peer (p : N) : peer :=
      p_ents := [ {| re_dev := None; re_addr := [0%N];
                     re_feats := [ {| rf_dev := None; rf_id := 0; rf_type := T_NODEMGMT; rf_role := RSpecial |} ] |} ] |}.
 
+(* ------------------------------------------------------------------ the two operations ParArrive is made of *)
+Definition inbound_v (v : variant) (s : st) (p : N) (d : dgram) : st * list obs :=
+  match find_peer s p with
+  | None => (s, [])                           (* no connection: nothing is delivered *)
+  | Some pe => process_cmd v s pe d
+  end.
+
+Definition add_resp_cb (s : st) (e : eaddr) (f ctr cb : N) : st * list obs :=
+  match find_lfeat s e (Some f) with
+  | None => (s, [ONone])
+  | Some lf =>
+      let cbs := match assoc_N ctr (lf_rcb lf) with Some l => l | None => [] end in
+      if memN cb cbs then (s, [ORetB false])      (* "callback already set" *)
+      else (upd_lfeat s e f (fun x => set_rcb ((ctr, cbs ++ [cb]) :: remove_N ctr (lf_rcb x)) x), [ORetB true])
+  end.
+
+(* one event of an overlapping operation *)
+Inductive ev := EArr (p : N) | EReg (cb : N).
+
+(* the registration racing with the arrivals: for d's reference on d's destination feature *)
+Definition late_reg (s : st) (d : dgram) (cb : N) : st * list obs :=
+  match d_ref d, fa_feat (d_dst d) with
+  | Some r, Some f => add_resp_cb s (fa_ent (d_dst d)) f r cb
+  | _, _ => (s, [])
+  end.
+
+Definition run_ev (v : variant) (s : st) (d : dgram) (e : ev) : st * list obs :=
+  match e with
+  | EArr p => inbound_v v s p d
+  | EReg cb => late_reg s d cb
+  end.
+
+(* a schedule: the events one after the other *)
+Fixpoint run_evs (v : variant) (s : st) (d : dgram) (l : list ev) : st * list obs :=
+  match l with
+  | [] => (s, [])
+  | e :: r =>
+      let '(s1, o1) := run_ev v s d e in
+      let '(s2, o2) := run_evs v s1 d r in
+      (s2, o1 ++ o2)
+  end.
+
+Definition par_events (ps : list N) (late : option N) (pf : N) : list ev :=
+  map EArr ps ++ match late with Some cb => [EReg cb] | None => [] end ++ [EArr pf].
+
+(* what an overlapping operation reports: invocations with the peer blanked, registration outcomes *)
+Definition par_obs (out : list obs) : list obs :=
+  flat_map (fun o => match o with
+                     | OInvoke cb e f r _ re rf data => [OInvoke cb e f r 0 re rf data]
+                     | ORetB _ | ONone => [o]
+                     | _ => []
+                     end) out.
+
 (* ------------------------------------------------------------------ step *)
 Definition step_v (v : variant) (s : st) (o : op) : st * list obs :=
   match o with
@@ -795,6 +856,8 @@ Definition step_v (v : variant) (s : st) (o : op) : st * list obs :=
       end
   | QFactory t =>
       (s, map ORetN (filter (fn_registered t) all_fns) ++ (if N.eqb t T_GENERIC then [] else [ORetN 1000]))
+  | ParArrive ps d late pf =>
+      let '(s1, out) := run_evs v s d (par_events ps late pf) in (s1, par_obs out)
   end.
 
 Definition step : st -> op -> st * list obs := step_v repaired.
